@@ -620,6 +620,40 @@ func ruleCacheStruct(prefix string) func(r *Run) {
 			}, cutMiss)
 			r.Check(orient, "(*cachedRoutes).Get:hit touched", g.Pos(), touched, map[bool]string{true: "a key just read becomes the most recent", false: "a hit does not refresh the entry's recency: the cache degrades to FIFO"}[touched])
 		}
+		// Has is a read of the key like Get: it answers through Get, or touches the element it found itself
+		if h := w.FnOpt("rux", "cachedRoutes.Has"); h != nil && len(h.Params) == 2 {
+			isOwnGet := func(x ssa.Instruction) bool {
+				c, ok := x.(*ssa.Call)
+				return ok && staticCallee(c) == g && len(c.Call.Args) == 2 && c.Call.Args[0] == ssa.Value(h.Params[0]) && c.Call.Args[1] == ssa.Value(h.Params[1])
+			}
+			viaGet, nRet := true, 0
+			eachInstr(h, func(in ssa.Instruction) {
+				if _, isRet := in.(*ssa.Return); isRet && !isRecoverBlock(in.Block()) {
+					nRet++
+					if entryPathAvoiding(h, in, isOwnGet) {
+						viaGet = false
+					}
+				}
+			})
+			okHas := viaGet && nRet > 0
+			if !okHas {
+				var hFound, hElem ssa.Value
+				var hLk ssa.Instruction
+				eachInstr(h, func(in ssa.Instruction) {
+					if lk, ok := in.(*ssa.Lookup); ok && lk.CommaOk && lk.Index == ssa.Value(h.Params[1]) && unwrapAddr(lk.X).hasField(cm.mapF) {
+						hFound, hElem, hLk = extractOf(lk, 1), extractOf(lk, 0), in
+					}
+				})
+				if hLk != nil {
+					cutMiss := cutEdges(h, func(cond ssa.Value, truth bool) bool { return cond == hFound && !truth })
+					okHas, _ = allPathsHitCut(h, hLk, func(x ssa.Instruction) bool {
+						c, ok := x.(ssa.CallInstruction)
+						return ok && listOp(c) == touchOp && c.Common().Args[1] == hElem
+					}, cutMiss)
+				}
+			}
+			r.Check(orient, "(*cachedRoutes).Has:hit touched", h.Pos(), okHas, map[bool]string{true: "Has reads the key through Get (or moves the element it found to the recent end itself)", false: "Has reports a key as present without refreshing its recency: a key that was just read can be the next eviction victim"}[okHas])
+		}
 		// Delete touches nothing else
 		d := cm.del
 		nTouch := len(callsIn(d, func(c ssa.CallInstruction) bool { op := listOp(c); return op != "" && op != "Remove" }))
@@ -740,7 +774,7 @@ func init() {
 			NotDecided:  []string{"step-by-step equality of twin routers for every request history (history-valued)", "eviction policy (C14)", "handlers mutating Params (excluded by the property's premise)"},
 			Assumptions: []string{"handlers treat Params as read-only; registration is finished before the first request"},
 		},
-		Rules: []ruleFn{{"C07-KEY", ruleCacheKey("C07-KEY")}, {"C07-VALUE", ruleC02Cache("C07-VALUE")}, {"C07-COPY", ruleC07Copy}, {"C01-TIERS", ruleC01Tiers}, {"C07-NODE", ruleCacheStruct("C07")}, {"C07-GUARD", ruleC07Guard}},
+		Rules: []ruleFn{{"C07-KEY", ruleCacheKey("C07-KEY")}, {"C07-VALUE", ruleC02Cache("C07-VALUE")}, {"C07-COPY", ruleC07Copy}, {"C01-TIERS", ruleC01Tiers}, {"C07-NODE", ruleCacheStruct("C07")}, {"C07-GUARD", ruleC07Guard}, {"C02-STATIC", ruleC02Static("C02-STATIC")}},
 	})
 	register(&property{
 		Meta: propertyMeta{
